@@ -54,14 +54,15 @@ CMPS = {
 
 
 class Outcome:
-    __slots__ = ("kind", "ret", "store", "events", "decisions")
+    __slots__ = ("kind", "ret", "store", "events", "decisions", "cons")
 
-    def __init__(self, kind, ret, store, events, decisions=()):
+    def __init__(self, kind, ret, store, events, decisions=(), cons=()):
         self.kind = kind        # 'ret' | 'die' | 'exit'
         self.ret = ret
         self.store = store
         self.events = events
         self.decisions = decisions
+        self.cons = cons
 
     def ret_int(self):
         return self.ret[1] if self.ret and self.ret[0] == "int" else None
@@ -71,9 +72,9 @@ class Outcome:
 
 
 class PState:
-    __slots__ = ("b", "idx", "store", "vals", "events", "visits", "decisions")
+    __slots__ = ("b", "idx", "store", "vals", "events", "visits", "decisions", "cons")
 
-    def __init__(self, b, idx, store, vals, events, visits, decisions):
+    def __init__(self, b, idx, store, vals, events, visits, decisions, cons=()):
         self.b = b
         self.idx = idx
         self.store = store
@@ -81,16 +82,45 @@ class PState:
         self.events = events
         self.visits = visits
         self.decisions = decisions
+        self.cons = cons        # linear path constraints: ((terms), c) meaning sum(coef*sym) <= c
 
     def fork(self):
         return PState(self.b, self.idx, dict(self.store), dict(self.vals), self.events,
-                      dict(self.visits), self.decisions)
+                      dict(self.visits), self.decisions, self.cons)
+
+
+# ---- linear forms (E5): c0 + sum(coef * symbol), symbols have integer ranges ----
+
+def to_lin(v):
+    if v[0] == "int":
+        return v[1], {}
+    if v[0] == "lin":
+        return v[1], dict(v[2])
+    return None
+
+
+def mk_lin(c0, terms):
+    t = tuple(sorted((k, c) for k, c in terms.items() if c != 0))
+    if not t:
+        return INT(c0)
+    return ("lin", int(c0), t)
+
+
+NEG_OP = {"<": ">=", "<=": ">", ">": "<=", ">=": "<", "==": "!=", "!=": "=="}
+
+TYPE_RANGE = {
+    "unsigned char": (0, 255), "signed char": (-128, 127), "char": (-128, 127),
+    "unsigned short": (0, 65535), "short": (-32768, 32767),
+    "unsigned int": (0, 2**32 - 1), "int": (-2**31, 2**31 - 1),
+    "unsigned long": (0, 2**64 - 1), "long": (-2**63, 2**63 - 1),
+    "unsigned long long": (0, 2**64 - 1), "long long": (-2**63, 2**63 - 1), "_Bool": (0, 1),
+}
 
 
 class Explorer:
     def __init__(self, prog, inline=None, summaries=None, max_depth=4, max_paths=200000,
                  effects=None, distinct_roots=True, loop_bound=2, on_unknown_call=None,
-                 nondet_fields=(), field_values=None, merge=False):
+                 nondet_fields=(), field_values=None, merge=False, on_call=None):
         self.prog = prog
         self.inline = inline or (lambda name, fn: False)
         self.summaries = summaries or {}
@@ -106,12 +136,118 @@ class Explorer:
         # the location read (lets a rule model "every such field holds X")
         self.field_values = dict(field_values or {})
         self._ro_cache = {}
+        self.syms = {}          # symbol -> (lo, hi)
+        self.on_call = on_call  # on_call(ex, st, f, node, callee, args): observe every call
         # merge mode: path states reaching the same block with the same store
         # are explored once; events go to self.event_log instead of per-path
         # traces (for rules that need the set of effects, not their order)
         self.merge = merge
         self.event_log = []
         self._span = {}
+
+    # ---- linear forms ----------------------------------------------------------
+    def sym(self, name, lo, hi):
+        self.syms[name] = (lo, hi)
+        return ("lin", 0, ((name, 1),))
+
+    def bounds(self, cons, c0, terms):
+        """(lo, hi) of c0 + sum(coef*sym) from the symbol ranges, tightened by
+        path constraints over exactly the same (or the negated) linear form."""
+        lo = hi = c0
+        # per-symbol ranges tightened by single-symbol path constraints
+        tight = {}
+        for (ct, cc) in cons:
+            if len(ct) == 1 and ct[0][0] in terms:
+                sname, co = ct[0]
+                r = tight.get(sname) or self.syms.get(sname)
+                if r is None:
+                    continue
+                if co > 0:
+                    r = (r[0], min(r[1], cc // co))
+                else:
+                    r = (max(r[0], -(cc // -co)), r[1])
+                tight[sname] = r
+        for sname, co in terms.items():
+            r = tight.get(sname) or self.syms.get(sname)
+            if r is None:
+                return None, None
+            a, b = co * r[0], co * r[1]
+            lo += min(a, b)
+            hi += max(a, b)
+        def rng(sname):
+            return tight.get(sname) or self.syms.get(sname)
+
+        def hi_of(form):
+            h = 0
+            for sname, co in form.items():
+                r = rng(sname)
+                if r is None:
+                    return None
+                h += max(co * r[0], co * r[1])
+            return h
+        # combine each path constraint  C <= cc  with interval bounds of the rest:
+        #   T = C + (T - C)  =>  T <= cc + hi(T - C);   -T = C + (-T - C)  =>  T >= -cc - hi(-T - C)
+        for (ct, cc) in cons:
+            cd = dict(ct)
+            if not (set(cd) & set(terms)):
+                continue
+            d1 = dict(terms)
+            for k_, c_ in cd.items():
+                d1[k_] = d1.get(k_, 0) - c_
+            h1 = hi_of({k_: c_ for k_, c_ in d1.items() if c_})
+            if h1 is not None:
+                hi = min(hi, c0 + cc + h1)
+            d2 = {k_: -c_ for k_, c_ in terms.items()}
+            for k_, c_ in cd.items():
+                d2[k_] = d2.get(k_, 0) - c_
+            h2 = hi_of({k_: c_ for k_, c_ in d2.items() if c_})
+            if h2 is not None:
+                lo = max(lo, c0 - cc - h2)
+        return lo, hi
+
+    def decide_cmp(self, cons, op, c0, terms):
+        """Truth of (c0 + terms) op 0, or None."""
+        lo, hi = self.bounds(cons, c0, terms)
+        if lo is None:
+            return None
+        if op == "<":
+            return True if hi < 0 else (False if lo >= 0 else None)
+        if op == "<=":
+            return True if hi <= 0 else (False if lo > 0 else None)
+        if op == ">":
+            return True if lo > 0 else (False if hi <= 0 else None)
+        if op == ">=":
+            return True if lo >= 0 else (False if hi < 0 else None)
+        if op == "==":
+            return True if lo == hi == 0 else (False if (lo > 0 or hi < 0) else None)
+        if op == "!=":
+            return False if lo == hi == 0 else (True if (lo > 0 or hi < 0) else None)
+        return None
+
+    @staticmethod
+    def cmp_constraints(op, c0, terms):
+        key = tuple(sorted(terms.items()))
+        nkey = tuple(sorted((k, -c) for k, c in terms.items()))
+        if op == "<":
+            return ((key, -1 - c0),)
+        if op == "<=":
+            return ((key, -c0),)
+        if op == ">":
+            return ((nkey, c0 - 1),)
+        if op == ">=":
+            return ((nkey, c0),)
+        if op == "==":
+            return ((key, -c0), (nkey, c0))
+        return ()
+
+    def fits(self, cons, v, ctype):
+        """Is the linear value v representable in C type ctype (no wrap)?"""
+        r = TYPE_RANGE.get(ctype)
+        l = to_lin(v)
+        if r is None or l is None:
+            return True
+        lo, hi = self.bounds(cons, l[0], l[1])
+        return lo is not None and lo >= r[0] and hi <= r[1]
 
     # ---- constant globals -------------------------------------------------
     def global_load(self, root, path):
@@ -174,11 +310,26 @@ class Explorer:
     @staticmethod
     def havoc_root(store, root, prefix=()):
         for k in list(store):
-            if k[0] == root and k[1][:len(prefix)] == tuple(prefix):
+            if k[0] == root and k[1] == ("zeroinit",):
+                del store[k]
+            elif k[0] == root and k[1][:len(prefix)] == tuple(prefix):
                 store[k] = TOP
 
+    def _all_zero_init(self, f, i):
+        n = f.nodes[i]
+        if n["k"] != "InitListExpr":
+            return False
+        for j in f.descendants(i, include_self=False):
+            m = f.nodes[j]
+            if m["k"] in ("InitListExpr", "ImplicitValueInitExpr", "ImplicitCastExpr", "ParenExpr"):
+                continue
+            if m["k"] in ("IntegerLiteral", "CharacterLiteral") and m.get("v") == 0:
+                continue
+            return False
+        return True
+
     # ---- main entry ------------------------------------------------------
-    def run(self, f, args, store, events=(), depth=0):
+    def run(self, f, args, store, events=(), depth=0, cons=()):
         """args: list of values for the parameters (missing = TOP)."""
         self.frame_counter += 1
         fid = self.frame_counter
@@ -191,7 +342,7 @@ class Explorer:
                 continue
             store[(("loc", fid, p["name"]), ())] = a
         outs = []
-        init = PState(f.entry, 0, store, {}, tuple(events), {}, ())
+        init = PState(f.entry, 0, store, {}, tuple(events), {}, (), tuple(cons))
         work = [init]
         seen = set() if self.merge else None
         while work:
@@ -249,31 +400,39 @@ class Explorer:
                     if res is None:
                         # no-return callee
                         self.paths += 1
-                        outs.append(Outcome("die", None, st.store, st.events, st.decisions))
+                        outs.append(Outcome("die", None, st.store, st.events, st.decisions, st.cons))
                         return
                     if len(res) == 0:
                         return
                     # fork over callee outcomes
-                    for (ret, store2, events2) in res[1:]:
+                    for r_ in res[1:]:
                         s2 = st.fork()
-                        s2.store = dict(store2)
-                        s2.events = events2
-                        s2.vals[e] = ret
+                        s2.store = dict(r_[1])
+                        s2.events = r_[2]
+                        s2.vals[e] = r_[0]
                         s2.idx = i + 1
+                        if len(r_) > 3:
+                            s2.cons = r_[3]
                         work.append(s2)
-                    ret, store2, events2 = res[0]
-                    st.store = dict(store2)
-                    st.events = events2
-                    st.vals[e] = ret
+                    r_ = res[0]
+                    st.store = dict(r_[1])
+                    st.events = r_[2]
+                    st.vals[e] = r_[0]
+                    if len(r_) > 3:
+                        st.cons = r_[3]
                 elif k == "ReturnStmt":
                     rv = self.V(f, fid, n["val"], st) if n["val"] >= 0 else None
                     self.paths += 1
-                    outs.append(Outcome("ret", rv, st.store, st.events, st.decisions))
+                    outs.append(Outcome("ret", rv, st.store, st.events, st.decisions, st.cons))
                     return
                 elif k == "DeclStmt":
                     for d in n["decls"]:
                         loc = (("loc", fid, d["name"]), ())
-                        if "init" in d:
+                        if "init" in d and self._all_zero_init(f, d["init"]):
+                            # struct/array local initialised with {0}
+                            self.havoc_root(st.store, ("loc", fid, d["name"]))
+                            st.store[(("loc", fid, d["name"]), ("zeroinit",))] = INT(1)
+                        elif "init" in d:
                             st.store[loc] = self.V(f, fid, d["init"], st)
                         else:
                             st.store[loc] = TOP
@@ -283,13 +442,13 @@ class Explorer:
                 i += 1
             if b in f.cut:
                 self.paths += 1
-                outs.append(Outcome("die", None, st.store, st.events, st.decisions))
+                outs.append(Outcome("die", None, st.store, st.events, st.decisions, st.cons))
                 return
             succs = blk["succs"]
             term = blk.get("term")
             if b == f.exit or not succs:
                 self.paths += 1
-                outs.append(Outcome("exit", None, st.store, st.events, st.decisions))
+                outs.append(Outcome("exit", None, st.store, st.events, st.decisions, st.cons))
                 return
             nxt = []
             if term is not None and f.nodes[term]["k"] == "SwitchStmt":
@@ -318,13 +477,21 @@ class Explorer:
                         f.nodes[cs]["op"] in ("&&", "||") and elems and f.nodes[term]["k"] != "BinaryOperator":
                     cond = elems[-1]
                 v = self.V(f, fid, cond, st) if cond is not None else TOP
-                t = truth(v)
+                if v[0] == "lin":
+                    v = ("cmp", "!=", v[1], v[2])
+                cmpv = None
+                if v[0] == "cmp":
+                    t = self.decide_cmp(st.cons, v[1], v[2], dict(v[3]))
+                    if t is None:
+                        cmpv = v
+                else:
+                    t = truth(v)
                 tn = f.nodes[term]
                 for si, want in ((0, True), (1, False)):
                     if succs[si] is None:
                         continue
                     if t is None or t == want:
-                        nxt.append((succs[si], (cond, want, term), ("br", cond, want)))
+                        nxt.append((succs[si], (cond, want, term, cmpv), ("br", cond, want)))
             else:
                 for s in succs:
                     if s is not None:
@@ -359,7 +526,16 @@ class Explorer:
 
     def _take(self, f, st, s, refine, dec):
         if refine is not None:
-            cond, want, term = refine
+            cond, want, term, cmpv = refine
+            if cmpv is not None:
+                op = cmpv[1] if want else NEG_OP[cmpv[1]]
+                st.cons = st.cons + self.cmp_constraints(op, cmpv[2], dict(cmpv[3]))
+                if op == "!=":
+                    lo, hi = self.bounds(st.cons, cmpv[2], dict(cmpv[3]))
+                    if lo == 0:
+                        st.cons = st.cons + self.cmp_constraints(">", cmpv[2], dict(cmpv[3]))
+                    elif hi == 0:
+                        st.cons = st.cons + self.cmp_constraints("<", cmpv[2], dict(cmpv[3]))
             if cond is not None:
                 st.vals[cond] = INT(1 if want else 0)
                 cs = f.strip(cond)
@@ -406,6 +582,11 @@ class Explorer:
             return (bl[0], bl[1] + comp)
         if k == "ArraySubscriptExpr":
             iv = self.V(f, fid, n["c"][1], st)
+            if iv[0] == "lin":
+                bv = self.V(f, fid, n["c"][0], st)
+                if bv[0] == "ptr" and bv[2] and bv[2][-1] == 0:
+                    return (bv[1], bv[2][:-1] + (iv,))
+                return None
             if iv[0] != "int":
                 return None
             bj = n["c"][0]
@@ -456,6 +637,13 @@ class Explorer:
         if k in ("ImplicitCastExpr", "CStyleCastExpr"):
             ck = n.get("ck")
             if ck == "LValueToRValue":
+                sub = f.nodes[f.strip(c[0], casts=False)]
+                if sub["k"] == "ArraySubscriptExpr":
+                    bv = self.V(f, fid, sub["c"][0], st)
+                    iv = self.V(f, fid, sub["c"][1], st)
+                    if bv[0] == "str" and iv[0] == "int":
+                        sv = bv[1]
+                        return INT(ord(sv[iv[1]])) if 0 <= iv[1] < len(sv) else (INT(0) if iv[1] == len(sv) else TOP)
                 loc = self.L(f, fid, c[0], st)
                 if loc is not None and loc[1] and isinstance(loc[1][-1], tuple) and \
                         loc[1][-1] in self.nondet_fields:
@@ -468,6 +656,8 @@ class Explorer:
                     gv = self.global_load(loc[0], loc[1])
                     if gv is not None:
                         return gv
+                if loc is not None and loc not in st.store and (loc[0], ("zeroinit",)) in st.store:
+                    return INT(0)
                 return self.load(st.store, loc)
             if ck == "ArrayToPointerDecay":
                 sn = f.nodes[f.strip(c[0])]
@@ -488,6 +678,10 @@ class Explorer:
             v = self.V(f, fid, c[0], st)
             if ck == "IntegralCast" and v[0] == "int":
                 return self._wrap(v[1], n.get("ct") or n.get("t"))
+            if ck == "IntegralCast" and v[0] == "lin":
+                return v if self.fits(st.cons, v, n.get("ct") or n.get("t")) else TOP
+            if ck == "IntegralCast" and v[0] == "cmp":
+                return v
             return v
         if k == "DeclRefExpr":
             dk = n.get("dk")
@@ -507,6 +701,10 @@ class Explorer:
                 d_ = 1 if op == "++" else -1
                 if old[0] == "int":
                     new = INT(old[1] + d_)
+                elif old[0] == "lin":
+                    new = mk_lin(old[1] + d_, dict(old[2]))
+                    if not self.fits(st.cons, new, n.get("ct") or n.get("t")):
+                        new = TOP
                 elif old[0] == "ptr" and old[2] and isinstance(old[2][-1], int):
                     new = PTR(old[1], old[2][:-1] + (old[2][-1] + d_,))
                 else:
@@ -515,6 +713,13 @@ class Explorer:
                     self._store(f, st, loc, new, i)
                 return old if n.get("postfix") else new
             v = self.V(f, fid, c[0], st)
+            if op == "!" and v[0] == "cmp":
+                return ("cmp", NEG_OP[v[1]], v[2], v[3])
+            if op == "!" and v[0] == "lin":
+                t = self.decide_cmp(st.cons, "==", v[1], dict(v[2]))
+                return ("cmp", "==", v[1], v[2]) if t is None else INT(1 if t else 0)
+            if op == "-" and v[0] == "lin":
+                return mk_lin(-v[1], {k_: -c_ for k_, c_ in v[2]})
             if op == "!":
                 t = truth(v)
                 return TOP if t is None else INT(0 if t else 1)
@@ -554,6 +759,9 @@ class Explorer:
                 return INT(1 if r else 0)
             a = self.V(f, fid, c[0], st)
             b = self.V(f, fid, c[1], st)
+            r_ = self._lin_binop(f, i, n, op, a, b, st)
+            if r_ is not None:
+                return r_
             if op in CMPS:
                 if a[0] == "int" and b[0] == "int":
                     return INT(1 if CMPS[op](a[1], b[1]) else 0)
@@ -564,6 +772,8 @@ class Explorer:
                 return TOP
             if op in ("+", "-") and a[0] == "ptr" and b[0] == "int" and a[2] and isinstance(a[2][-1], int):
                 return PTR(a[1], a[2][:-1] + (a[2][-1] + (b[1] if op == "+" else -b[1]),))
+            if op == "+" and a[0] == "ptr" and b[0] == "lin" and a[2]:
+                return self._ptr_add(a, b)
             if op in ARITH and a[0] == "int" and b[0] == "int":
                 r = ARITH[op](a[1], b[1])
                 return TOP if r is None else INT(r)
@@ -577,6 +787,11 @@ class Explorer:
             if old[0] == "int" and rv[0] == "int" and op in ARITH:
                 r = ARITH[op](old[1], rv[1])
                 new = TOP if r is None else INT(r)
+            elif old[0] == "ptr" and rv[0] in ("lin", "int") and op == "+" and old[2]:
+                new = self._ptr_add(old, rv)
+            elif "lin" in (old[0], rv[0]):
+                r_ = self._lin_binop(f, i, n, op, old, rv, st)
+                new = r_ if r_ is not None else TOP
             if loc is not None:
                 self._store(f, st, loc, new, i)
             return new
@@ -587,6 +802,78 @@ class Explorer:
             return self.V(f, fid, c[1] if t else c[2], st)
         if k == "CallExpr":
             return TOP      # calls are executed as CFG elements only
+        return TOP
+
+    @staticmethod
+    def _ptr_add(p, d):
+        last = p[2][-1]
+        if isinstance(last, int):
+            cur = INT(last)
+        elif isinstance(last, tuple) and last and last[0] in ("lin", "int"):
+            cur = last
+        else:
+            return TOP
+        la, lb = to_lin(cur), to_lin(d)
+        t = dict(la[1])
+        for k_, c_ in lb[1].items():
+            t[k_] = t.get(k_, 0) + c_
+        v = mk_lin(la[0] + lb[0], t)
+        return PTR(p[1], p[2][:-1] + ((v[1] if v[0] == "int" else v),))
+
+    def _lin_binop(self, f, i, n, op, a, b, st):
+        """Arithmetic / comparison when an operand is a linear form (or a mask of
+        an unknown).  Returns None when not applicable."""
+        ct = n.get("ct") or n.get("t")
+        if op == "&" and ((a[0] == "int" and a[1] >= 0 and b[0] != "int") or
+                          (b[0] == "int" and b[1] >= 0 and a[0] != "int")):
+            mask = a[1] if a[0] == "int" else b[1]
+            other = b if a[0] == "int" else a
+            lo_ = to_lin(other)
+            if lo_ is not None:
+                lo, hi = self.bounds(st.cons, lo_[0], lo_[1])
+                if lo is not None and lo >= 0:
+                    if mask == 0 or hi < (mask & -mask):
+                        return INT(0)           # no bit of the mask can be set
+                    if (mask & (mask + 1)) == 0 and hi <= mask:
+                        return other            # low-bits mask wider than the value: identity
+            if lo_ is not None and lo_[1]:
+                # the same symbolic operand masked with the same constant is the same value
+                name = "(%s)&%d" % (",".join("%s*%d" % kc for kc in sorted(lo_[1].items())) + "+%d" % lo_[0], mask)
+                if name not in self.syms:
+                    self.syms[name] = (0, mask)
+                return ("lin", 0, ((name, 1),))
+            self._fresh = getattr(self, "_fresh", 0) + 1
+            return self.sym("and%d@%s:%d" % (self._fresh, f.name, f.lineof(i)), 0, mask)
+        if a[0] != "lin" and b[0] != "lin":
+            return None
+        la, lb = to_lin(a), to_lin(b)
+        if la is None or lb is None:
+            return TOP if op not in CMPS else None
+        if op in ("+", "-"):
+            sg = 1 if op == "+" else -1
+            t = dict(la[1])
+            for k_, c_ in lb[1].items():
+                t[k_] = t.get(k_, 0) + sg * c_
+            v = mk_lin(la[0] + sg * lb[0], t)
+            return v if self.fits(st.cons, v, ct) else TOP
+        if op == "*":
+            if not la[1]:
+                v = mk_lin(la[0] * lb[0], {k_: c_ * la[0] for k_, c_ in lb[1].items()})
+            elif not lb[1]:
+                v = mk_lin(la[0] * lb[0], {k_: c_ * lb[0] for k_, c_ in la[1].items()})
+            else:
+                return TOP
+            return v if self.fits(st.cons, v, ct) else TOP
+        if op in CMPS:
+            t = dict(la[1])
+            for k_, c_ in lb[1].items():
+                t[k_] = t.get(k_, 0) - c_
+            t = {k_: c_ for k_, c_ in t.items() if c_ != 0}
+            c0 = la[0] - lb[0]
+            d = self.decide_cmp(st.cons, op, c0, t)
+            if d is not None:
+                return INT(1 if d else 0)
+            return ("cmp", op, c0, tuple(sorted(t.items())))
         return TOP
 
     @staticmethod
@@ -648,14 +935,18 @@ class Explorer:
         ev = ("call", cal, tuple(args), f.key, e)
         if self.merge:
             self.event_log.append(ev)
+        if self.on_call is not None:
+            self.on_call(self, st, f, e, cal, args)
         if cal is not None and cal in self.summaries:
             r = self.summaries[cal](self, st, args, f, e)
             if r is not None:
                 out = []
-                for ret, upd in r:
+                for item in r:
+                    ret, upd = item[0], item[1]
                     s2 = dict(st.store)
                     s2.update(upd)
-                    out.append((ret, s2, st.events if self.merge else st.events + (ev,)))
+                    cons2 = st.cons + tuple(item[2]) if len(item) > 2 else st.cons
+                    out.append((ret, s2, st.events if self.merge else st.events + (ev,), cons2))
                 return out
         d = self.prog.resolve(f, cal) if cal else None
         if d is None and cal in self.prog.noreturn_names:
@@ -665,13 +956,13 @@ class Explorer:
         if d is not None and depth < self.max_depth and self.inline(cal, d):
             outs = self.run(d, args, st.store,
                             st.events if self.merge else st.events + (("enter", cal, tuple(args), f.key, e),),
-                            depth + 1)
+                            depth + 1, st.cons)
             res = []
             for o in outs:
                 if o.kind == "die":
                     continue
                 res.append((o.ret if o.ret is not None else TOP, o.store,
-                            o.events if self.merge else o.events + (("leave", cal, o.ret),)))
+                            o.events if self.merge else o.events + (("leave", cal, o.ret),), o.cons))
             return res
         # unknown / not inlined: havoc what it may write
         store = st.store
@@ -692,9 +983,12 @@ class Explorer:
             for k in list(store):
                 if isinstance(k[0], tuple) and k[0][0] == "G" and k[0][2] in globs:
                     store[k] = TOP
-        for a in args:
+        from .effects import LIBC_DEST_WRITERS
+        for ai, a in enumerate(args):
             if a[0] == "ptr":
                 root = a[1]
+                if d is None and cal in LIBC_DEST_WRITERS and ai != LIBC_DEST_WRITERS[cal]:
+                    continue        # libc routine that only reads through this argument
                 if isinstance(root, tuple) and root[0] == "loc":
                     self.havoc_root(store, root, a[2] if not (a[2] and a[2][-1] == 0) else a[2][:-1])
                 elif d is None:
